@@ -186,10 +186,12 @@ def c17_witnesses(tier):
 
 
 def tr_conj(w, tier):
-    kinds = ['k::TC0', 'k::TC1', 'k::TCm', 'k::NC0', 'k::NC1', 'k::NCm', 'k::MO1']
+    kinds = ['k::TC0', 'k::TC1', 'k::TCm', 'k::NC0', 'k::NC1', 'k::NCm', 'k::MO1',
+             # element types that are pairs: relocatable exactly when both members are (each member position matters)
+             'std::pair<int, k::NC0>', 'std::pair<k::NC0, int>', 'std::pair<k::TC1, k::NC1>', 'std::pair<const int, k::NCm>']
     for kd in kinds:
-        r = 'oracle::reloc<%s>::value' % kd
-        w.add('TR-CONJ', 'trconj|vector|' + kd, 'amc::is_trivially_relocatable<amc::vector<%s> >::value' % kd,
+        r = 'oracle::reloc<%s >::value' % kd
+        w.add('TR-CONJ', 'trconj|vector|' + kd, 'amc::is_trivially_relocatable<amc::vector<%s > >::value' % kd,
               'amc::vector<%s> is always trivially relocatable (it owns only a heap pointer)' % kd)
         for n in [1, 2, 3, 9]:
             w.add('TR-CONJ', 'trconj|SmallVector|%s|%d' % (kd, n),
